@@ -30,6 +30,9 @@ TRUSTED = [
     'the instantiation of the opaque operations in coq/C10/Model.v (Sections GenInst, HistInst: functional n-d arrays, boolean-mask indexing, any / where / min / max, '
     'item assignment of slice(lo, hi) boxes, exact-rational range ends with widening 0) is a hand-written model of numpy: tied to the code by correspondence only; '
     'not translated: the bodies of the random_subset and dask blocks (compared with template texts), glue.utils.compute_statistic (the opaque kernel)',
+    'glue.utils.unbroadcast is a parameter `unb` of the translated model; the statistic theorems assume unb_sound (for the statistics the guard '
+    "`statistic not in ('sum', 'percentile')` lets through, the overall result of the kernel is the same on the unbroadcast array: true for min/max/mean/median, "
+    'refuted for the sum: unbroadcast_shortcut_sum_refuted); the executable instance uses bc_unbroadcast (stride-0 axes cut to length min(1, n)); tied by stream stat_broadcast',
     'numerical kernels are oracles: numpy nanmin/nanmax/nanmean/nanmedian/nansum/nanpercentile and fast_histogram; the model reducer R is abstract '
     '(assumed: depends only on the multiset of kept values of a lane, NaN for an empty lane)',
     'the masks of the selections are taken from a plain-numpy reference (ref_mask), not from the model (C04 covers mask/view agreement)',
@@ -269,13 +272,20 @@ def reducer(stat, pct, vals):
 # ------------------------------------------------------------------ one statistic case
 def case_key(c):
     return (tuple(c['shape']), tuple(c['values']), repr(c['sel']), repr(c['view']), repr(c['axis']), c['stat'], c['pct'],
-            c['finite'], c['positive'], c['ncm'], c.get('viewform'))
+            c['finite'], c['positive'], c['ncm'], c.get('viewform'), c.get('pix'), repr(c.get('bc')))
 
 
 def make_data(c):
     G.load()
     shape = tuple(c['shape'])
     x = np.array([val_dec(v) for v in c['values']], dtype=float).reshape(shape)
+    if c.get('pix') is not None:
+        # the statistic is taken of the pixel coordinate component of axis `pix` (a broadcast array in glue)
+        k = c['pix']
+        x = np.broadcast_to(np.arange(shape[k], dtype=float).reshape([shape[k] if i == k else 1 for i in range(len(shape))]), shape)
+    elif c.get('bc'):
+        # a STORED broadcast array: stride 0 along the axes flagged in 'bc' (the values of index 0 are repeated)
+        x = np.broadcast_to(x[tuple(slice(0, 1) if b else slice(None) for b in c['bc'])], shape)
     y = np.array(c['y'], dtype=int).reshape(shape)
     if c.get('z') is not None:
         z = np.array([val_dec(v) for v in c['z']], dtype=float).reshape(shape)
@@ -310,7 +320,8 @@ def run_impl_stat(c, d=None):
     try:
         with warnings.catch_warnings():
             warnings.simplefilter('ignore')
-            r = d.compute_statistic(c['stat'], d.id['x'], subset_state=st, axis=axis_of(c), finite=c['finite'],
+            cid = d.id['x'] if c.get('pix') is None else d.pixel_component_ids[c['pix']]
+            r = d.compute_statistic(c['stat'], cid, subset_state=st, axis=axis_of(c), finite=c['finite'],
                                     positive=c['positive'], percentile=c['pct'], view=impl_view(c), n_chunk_max=c['ncm'])
         return ('ok', np.asarray(r, dtype=float))
     except Exception as e:  # noqa
@@ -352,7 +363,7 @@ def gen_line_stat(c, x, mask):
     ax = c['axis']
     axt = (0, []) if ax is None else (2, [ax]) if isinstance(ax, int) else (1, list(ax))
     return enc((6, [Z(c['shape']), view, selt, B(np.isfinite(x).ravel().tolist()), B((x > 0).ravel().tolist()),
-                    int(bool(c['finite'])), int(bool(c['positive'])), axt, c['ncm']]))
+                    int(bool(c['finite'])), int(bool(c['positive'])), axt, c['ncm'], STATS.index(c['stat']), B(bc_flags(c))]))
 
 
 GEN_STATS = {'cases': 0, 'disagree': 0}
@@ -400,7 +411,7 @@ def check_stat(R, c, impl, mout, x, mask, count=True, gout=None):
             R.fail('oracle', c, bad, key=None)
         elif not same(got, exp, amb):
             bad = {'result': got.tolist(), 'expected': exp.tolist()}
-            R.fail('oracle', c, bad, key=None)
+            R.fail('oracle', c, bad, key='sum-over-broadcast-component' if sum_over_broadcast(c) else None)
     # ---- correspondence: the hand model, and the skeleton translated from the source
     for which, mo in (('model', mout), ('translated', gout)):
         if mo is None:
@@ -675,6 +686,66 @@ def stream_stat_intviews(R):
              bound='2..4-d shapes with pairwise different lengths from {2,3,4,5,7,9,12} (<= 260 cells); views of length 1..ndim with at least one integer '
                    '(negative allowed) mixed with slices that have explicit (also negative) starts/stops, sometimes a step; box-shaped masks and all other '
                    'selection kinds; axis arguments of the viewed array; 7 fixed cases around shape (3,12,4), view (1, slice(6,11))')
+
+
+def bc_flags(c):
+    """the stride-0 axes of the component the statistic is taken of"""
+    nd = len(c['shape'])
+    if c.get('pix') is not None:
+        return [i != c['pix'] for i in range(nd)]
+    return [bool(b) for b in c['bc']] if c.get('bc') else [False] * nd
+
+
+def sum_over_broadcast(c):
+    """the failure class of the finding `sum-over-broadcast-component`"""
+    return (c['stat'] in ('sum', 'percentile') and c['axis'] is None and (c['sel'] is None or c['sel'][0] == 'slice' and c['view'] is None)
+            and any(bc_flags(c)))
+
+
+def stream_stat_broadcast(R):
+    """statistics of BROADCAST components (pixel coordinate components; stored np.broadcast_to arrays): every statistic, axis None / int /
+    tuple (chunked and not), with and without selection and view; oracle = the textbook statistic of the full broadcast values"""
+    G.load()
+    N = R.pick(2600, 20000)
+    cases = []
+    # fixed: the reported input first
+    cases.append({'stream': 'stat_broadcast', 'sub': -1, 'shape': [3, 4], 'values': [0] * 12, 'y': [0] * 12, 'sel': None, 'view': None, 'axis': None,
+                  'stat': 'sum', 'pct': None, 'finite': True, 'positive': False, 'ncm': 40000000, 'pix': 1})
+    for i in range(N):
+        rng = R.subrng('bcast', i)
+        c = rand_case(R, 1000003 + i)
+        c['stream'], c['sub'] = 'stat_broadcast', i
+        nd = len(c['shape'])
+        c['values'] = [v if isinstance(v, int) else 4 for v in c['values']] if rng.random() < .7 else c['values']
+        if rng.random() < .4:
+            c['pix'] = rng.randrange(nd)
+        else:
+            bc = [rng.random() < .5 for _ in range(nd)]
+            if not any(bc):
+                bc[rng.randrange(nd)] = True
+            c['bc'] = bc
+        k = i % 12
+        c['stat'] = STATS[k % 6]
+        c['pct'] = rng.choice([0, 25, 50, 75, 100, 30]) if c['stat'] == 'percentile' else None
+        if k < 6 and rng.random() < .6:
+            c['axis'] = None
+        if rng.random() < .35:
+            c['sel'] = None
+        cases.append(c)
+    ctx = []
+    for c in cases:
+        d, x, y = make_data(c)
+        mask = None if c['sel'] is None else ref_mask(c['sel'], tuple(c['shape']), y)
+        ctx.append((d, x, mask))
+    mouts, gouts = model_both(R, cases, ctx)
+    for c, (d, x, mask), mo, go in zip(cases, ctx, mouts, gouts):
+        impl = run_impl_stat(c, d)
+        check_stat(R, c, impl, mo, x, mask, gout=go)
+    R.sample(cases[0])
+    R.stream('stat_broadcast', cases=len(cases), exhaustive=False,
+             bound='1..4-d, sizes <= 5; component = pixel coordinate of a random axis (40%) or a stored np.broadcast_to array with random stride-0 axes; all six '
+                   'statistics in rotation, axis None in about a third, selections of every kind or none, views none / full / short / strided / list / Ellipsis, '
+                   'n_chunk_max small so that the chunk loop runs; oracle = textbook statistic of the full broadcast values; first case = the reported input')
 
 
 def shrink_stat(R, c):
@@ -1558,6 +1629,7 @@ def run(R):
     stream_stat_exhaustive(R)
     stream_stat_random(R)
     stream_stat_intviews(R)
+    stream_stat_broadcast(R)
     R.stream('stat_translated', cases=GEN_STATS['cases'], disagreements=GEN_STATS['disagree'], exhaustive=True,
              bound='every case of the streams corpus, stat_exhaustive (exhaustive small scope), stat_random and stat_intviews (seeded random) is also run '
                    'through the skeleton TRANSLATED from the current source (coq/gen/Gen_stat.v: compute_statistic, instantiated in coq/C10/Model.v, '
